@@ -13,7 +13,7 @@ import (
 )
 
 const rule = "cases are histories of updater API calls (AddResource, SelectVersions, GetFile, Blacklist, Purge(keep), " +
-	"GetSelectedVersions, GetVersion, registry flags, files put on disk) on a fresh ResourceRegistry with real files, every call " +
+	"File.Blacklist, File.Unpack, AnyVersionAvailable, GetSelectedVersions, GetVersion, registry flags, files put on disk; implementation only: files deleted by the environment before a purge) on a fresh ResourceRegistry with real files, every call " +
 	"followed by a dump of all resources (version list in order with flags, selected, active, index) and of the storage " +
 	"directory, compared line by line with the Lean model; generators: random histories, update life cycles " +
 	"(scan, index, select, get, newer versions, purge), release moves (the current release announced through AddResource / " +
@@ -321,6 +321,18 @@ func (h *hist) blacklist(id, ver string) {
 	h.r.Count("op:blacklist")
 }
 
+// File.Unpack of the file handed out last
+func (h *hist) unpack(id string) {
+	h.op("unpack %s", id)
+	h.r.Count("op:unpack")
+}
+
+// File.Blacklist on the file handed out last
+func (h *hist) fblacklist(id string) {
+	h.op("fblacklist %s", id)
+	h.r.Count("op:fblacklist")
+}
+
 func (h *hist) purge(k int) {
 	h.op("purge %d", k)
 	h.selOps++
@@ -337,10 +349,14 @@ func (h *hist) touch(id string) {
 }
 
 func (h *hist) query() {
-	if h.r.Rng.Intn(2) == 0 {
+	switch x := h.r.Rng.Intn(5); {
+	case x < 2:
 		h.op("selected")
 		h.r.Count("op:selected")
-	} else {
+	case x == 2:
+		h.op("anyavail %s", h.id())
+		h.r.Count("op:anyavail")
+	default:
 		id := h.id()
 		if h.r.Rng.Intn(10) == 0 {
 			id = "unknown"
@@ -360,14 +376,18 @@ func (h *hist) randOp() {
 		h.selectOp()
 	case x < 63:
 		h.getfile(id)
-	case x < 71:
+	case x < 69:
 		h.blacklist(id, h.knownVer(id))
+	case x < 71:
+		h.fblacklist(id)
 	case x < 81:
 		h.purge(pick(rng, -1, 0, 1, 2, 2, 3, 4, 6))
 	case x < 87:
 		h.randFlags()
-	case x < 92:
+	case x < 90:
 		h.touch(id)
+	case x < 92:
+		h.unpack(id)
 	default:
 		h.query()
 	}
@@ -453,6 +473,9 @@ func genLifecycle(r *hxlib.Run, emit func(hxlib.Case)) {
 	for _, id := range h.ids {
 		if rng.Intn(4) > 0 {
 			h.getfile(id)
+			if rng.Intn(3) == 0 {
+				h.unpack(id)
+			}
 		}
 	}
 	if rng.Intn(2) == 0 {
@@ -639,6 +662,9 @@ func genPurgeGrid(r *hxlib.Run, emit func(hxlib.Case)) {
 	}
 	if rng.Intn(3) > 0 {
 		h.getfile(id)
+		if rng.Intn(3) == 0 {
+			h.unpack(id)
+		}
 	}
 	if rng.Intn(3) == 0 {
 		h.randFlags()
@@ -655,6 +681,43 @@ func genPurgeGrid(r *hxlib.Run, emit func(hxlib.Case)) {
 		h.purge(pick(rng, 0, 2, 3))
 	}
 	h.emit(emit, "purge-grid")
+}
+
+// Implementation only: the environment deletes files behind the updater's back (a file, signature or unpacked copy of an old
+// version is gone although the version is listed as available), then Purge runs over them — the removal branches for
+// files that do not exist. The monitor's purge clauses hold whatever the environment did to versions that are not required.
+func genExternalDeletion(r *hxlib.Run, emit func(hxlib.Case)) {
+	rng := r.Rng
+	h := newHist(r, 1)
+	h.inModelOnly = true
+	id := h.ids[0]
+	h.flags(bit(rng, 50), "0", bit(rng, 30))
+	n := 5 + rng.Intn(8)
+	var vers []string
+	for i := 0; i < n; i++ {
+		vers = append(vers, fmt.Sprintf("1.%d.0", i))
+	}
+	for _, k := range rng.Perm(n) {
+		h.add(id, vers[k], "1", "0", "0", "nil")
+		if rng.Intn(3) == 0 {
+			h.op("touch %s %s %s", id, vers[k], pick(rng, "1", "2"))
+		}
+	}
+	h.selectOp()
+	h.getfile(id)
+	// the newest version is selected and active and the newest stable one: delete files of older versions only
+	for k := 0; k < n-1; k++ {
+		if rng.Intn(3) == 0 {
+			h.op("rm %s %s %s", id, vers[k], pick(rng, "0", "0", "1", "2"))
+			r.Count("op:rm")
+		}
+	}
+	h.purge(pick(rng, 0, 1, 2, 3))
+	h.selectOp()
+	h.op("anyavail %s", id)
+	h.purge(pick(rng, 0, 2))
+	h.noModel = true
+	h.emit(emit, "external-deletion")
 }
 
 func genBlacklistRun(r *hxlib.Run, emit func(hxlib.Case)) {
@@ -676,6 +739,11 @@ func genBlacklistRun(r *hxlib.Run, emit func(hxlib.Case)) {
 		h.blacklist(id, vers[k])
 		if rng.Intn(4) == 0 {
 			h.blacklist(id, vers[k])
+		}
+		if rng.Intn(4) == 0 {
+			// the file that was handed out turns out broken
+			h.getfile(id)
+			h.fblacklist(id)
 		}
 	}
 	h.blacklist(id, pick(rng, vers...))
@@ -804,7 +872,8 @@ func genMalformedOps(r *hxlib.Run, emit func(hxlib.Case)) {
 		"blacklist app.exe", "dump all", "idver", "vpath x:61", "touch app.exe 1.0.0 1", "getfile app.exe", "getversion app.exe", "blacklist app.exe 1.0.0", "selected", "select", "purge 2", "dump",
 		"add app.exe x:- 1 1 1 nil", "dump", "touch app.exe 1.0.0 7", "touch app.exe 1.0.0 2", "touch app.exe zz 1", "add data 1.0.0 0 0 0 nil", "touch data 1.0.0 2", "touch data 1.0.0 1", "dump",
 		"addv", "addv nosuch 1.0.0 1 1 0", "addv data 1.1.0 1 1", "addv data 1.1.0 1 2 0", "addv data zz 0 1 0", "dump", "addmany", "addmany 1 1 0", "addmany 1 1 0 perhaps data=1.0.0",
-		"addmany 0 1 0 nil data", "addmany 0 1 0 nil data=1.0.0 data=1.1.0", "addmany 0 1 0 nil data=1.0.0=2", "addmany 0 1 0 auto", "addmany 0 1 0 auto data=1.0.0 app.exe=zz", "dump", "select", "dump"}
+		"addmany 0 1 0 nil data", "addmany 0 1 0 nil data=1.0.0 data=1.1.0", "addmany 0 1 0 nil data=1.0.0=2", "addmany 0 1 0 auto", "addmany 0 1 0 auto data=1.0.0 app.exe=zz", "dump", "select", "dump",
+		"fblacklist", "fblacklist data", "anyavail", "anyavail nosuch", "anyavail data", "getfile data", "unpack data", "fblacklist data", "dump", "fblacklist nosuch", "unpack", "unpack nosuch", "add app.exe 1.0.0 1 0 0 nil", "unpack app.exe", "getfile app.exe", "unpack app.exe", "unpack app.exe", "dump"}
 	emit(hxlib.Case{Lines: lines, Kind: "malformed-ops"})
 }
 
@@ -848,7 +917,7 @@ func generate(r *hxlib.Run, emit func(hxlib.Case)) {
 	genMalformedOps(r, emit)
 	genFilenames(r, emit, r.Budget(4000, 150000))
 	genOrder(r, emit, r.Budget(10000, 300000))
-	n := r.Budget(700, 18000)
+	n := r.Budget(700, 14000)
 	for i := 0; i < n; i++ {
 		genRandomHistory(r, emit)
 		genLifecycle(r, emit)
@@ -860,6 +929,9 @@ func generate(r *hxlib.Run, emit func(hxlib.Case)) {
 		}
 		if i%10 == 0 {
 			genLongHistory(r, emit)
+		}
+		if i%5 == 0 {
+			genExternalDeletion(r, emit)
 		}
 	}
 }
